@@ -323,7 +323,7 @@ pub fn judge_scaling_f64(st: &mut Stats, rng: &mut Rng, class: &str, a: &Vec<Vec
 /// and random dense systems; certificate from the harness complete-pivoting inverse.
 fn large_case(st: &mut Stats, rng: &mut Rng) {
     // mostly 9..32; now and then a few hundred (blocked/tiled elimination code only shows beyond its tile size)
-    let n = if rng.chance(0.02) { rng.usize(250, 330) } else if rng.chance(0.2) { rng.usize(33, 80) } else { rng.usize(9, 32) };
+    let n = if rng.chance(0.004) { rng.usize(513, 640) } else if rng.chance(0.02) { rng.usize(250, 330) } else if rng.chance(0.2) { rng.usize(33, 80) } else { rng.usize(9, 32) };
     let trap = rng.bool() && n <= 40;
     let a: Vec<Vec<f64>> = if trap {
         let c = *rng.pick(&[-2.0, 2.0, -1.5, -1.0, 1.0, -3.0]);
@@ -332,6 +332,10 @@ fn large_case(st: &mut Stats, rng: &mut Rng) {
         // random dense with a dominant diagonal for the larger orders (keeps the conditioning certificate cheap to meet)
         (0..n).map(|i| (0..n).map(|j| if i == j && n > 32 { (rng.int(5, 9) * n as i64) as f64 * if rng.bool() { 1.0 } else { -1.0 } } else { rng.int(-9, 9) as f64 }).collect()).collect()
     };
+    // the dominant entries are moved off the diagonal by a row permutation half of the time: every column then needs a
+    // genuine row exchange (a row-swap routine that works in blocks only shows beyond its block length)
+    let mut a = a;
+    if !trap && n > 32 && rng.bool() { let p = rng.perm(n); a = (0..n).map(|i| a[p[i]].clone()).collect(); }
     let xs: Vec<f64> = (0..n).map(|_| rng.int(-3, 3) as f64).collect();
     let b: Vec<f64> = (0..n).map(|i| (0..n).map(|j| a[i][j] * xs[j]).sum()).collect();
     match cp_cert_real(&a).filter(|k| *k <= KMAX) {
